@@ -328,7 +328,7 @@ theorem sort_respects : ImplRespects true [.val .anys, .val .any] (eager sort) :
 /-! ## `sort_natural` -/
 
 theorem natKey_repEq {x x' : GoVal} (h : RepEq false x x') : natKey x = natKey x' := by
-  have hs := sprint_repEq_false h
+  have hs := sprintR_repEq h
   have hn := isNil_repEq_false h
   unfold natKey
   cases x <;> cases x' <;> simp [GoVal.isNil] at hn <;> simp only [hs]
@@ -470,14 +470,13 @@ theorem sortNatural_respects : ImplRespects true [.val .anys, .val .any] (eager 
 
 end ArrF
 
-/-- every standard filter except those that observe the Go representation (`reprFilters`: `uniq`,
-    `json`, `inspect`, `type`) respects representation equivalence up to `unmodelled` (`d = false`),
+/-- every standard filter except those that observe the Go representation (`reprFilters`:
+    `json`, `inspect`, `type`; `uniq` included since `fixes/nested-drops-resolved`) respects representation equivalence up to `unmodelled` (`d = false`),
     for every name (registered or not) -/
 theorem filterRespects_std_upto (name : Bytes) (h : name ∉ reprFilters) : FilterRespects true name :=
   filterRespects_of_impl name (fun sg f hs hf =>
     goodEntry_table true reprFilters
       (fun _ => goodEntry_of_sig true ⟨ArrF.bn "sort", [.val .anys, .val .any], false⟩ (by decide +kernel) ArrF.sort_respects)
-      (fun hn => absurd (by simp [reprFilters]) hn)
       (fun _ => goodEntry_of_sig true ⟨ArrF.bn "sort_natural", [.val .anys, .val .any], false⟩ (by decide +kernel) ArrF.sortNatural_respects)
       (fun hn => absurd (by simp [reprFilters]) hn)
       (fun hn => absurd (by simp [reprFilters]) hn)
